@@ -277,6 +277,14 @@ func vfamilies() []*vfamily {
 		dec: func(b []byte, ver int16) (reflect.Value, error) {
 			var h responseHeader
 			err := versionedDecode(b, &h, ver)
+			if err == nil {
+				// what Broker.responseReceiver does next with a header it accepted: size the body buffer. Only a
+				// negative size is replayed here (it panics); allocating up to MaxResponseSize for a body the
+				// broker announces is legitimate and would only distort the allocation measure.
+				if n := h.length - int32(getHeaderLength(ver)) + 4; n < 0 {
+					_ = make([]byte, n)
+				}
+			}
 			return reflect.ValueOf(&VerifRespHeader{h.length, h.correlationID}), err
 		}})
 	return out
